@@ -554,6 +554,42 @@ def jsonable(c):
     return {k: (v.tolist() if hasattr(v, "tolist") else v) for k, v in c.items() if not k.startswith("_")}
 
 
+def scaled_init_case(dfols, seed):
+    """one run of the scaled-initial-set suite; returns ([(signature, what)], (evaluations, points on the upper bound) or None)"""
+    rng = np.random.default_rng(seed)
+    n = int(rng.integers(1, 5))
+    xl = np.round(rng.uniform(-3, 1, size=n), int(rng.integers(1, 3)))
+    xu = xl + np.round(rng.uniform(0.5, 4, size=n), int(rng.integers(1, 3)))
+    x0 = xl + (xu - xl) * rng.uniform(0, 1, size=n)
+    for j in range(n):
+        u = rng.random()
+        if u < 0.4:
+            x0[j] = xu[j]
+        elif u < 0.55:
+            x0[j] = xl[j]
+        elif u < 0.7:
+            x0[j] = xu[j] - (xu[j] - xl[j]) * 0.1 * rng.random()
+    npt = int(rng.integers(n + 1, 2 * n + 2))
+    calls = []
+
+    def f(x):
+        calls.append(np.array(x, dtype=float, copy=True))
+        return np.array([float(np.sum(x)) - 1.0, float(x[0])])
+    try:
+        core.with_alarm(20, dfols.solve, f, x0.copy(), bounds=(xl.copy(), xu.copy()), npt=npt, maxfun=npt, scaling_within_bounds=True, do_logging=False)
+    except core.Alarm:
+        return [], None
+    except Exception as e:
+        return [("C14:scaled-init:solve-raised:" + type(e).__name__, "dfols.solve raised %r" % (e,))], None
+    on_ub = 0
+    for k, x in enumerate(calls[:npt]):
+        on_ub += int(np.any(x == xu))
+        if np.any(x < xl) or np.any(x > xu):
+            return [("C14:scaled-init:outside-bounds", "evaluation %d of the initial set is outside the bounds by %.3e (scaling_within_bounds, xl=%s, xu=%s, x=%s)"
+                     % (k + 1, float(max(np.max(xl - x), np.max(x - xu))), xl.tolist(), xu.tolist(), x.tolist()))], (len(calls), on_ub)
+    return [], (len(calls), on_ub)
+
+
 def search(ctx):
     dfols = core.import_dfols()
     from dfols import util as U
@@ -594,6 +630,22 @@ def search(ctx):
             report(sig, what, {"kind": "init", "seed": [ctx.seed, 1411, boost, i + len(fixed)], "fixed_index": (i + len(fixed) if i < 0 else None),
                                "style": i % 2, "stress": bool(i % 5 == 4), "case": jsonable(case)})
     ctx.cov["search_init"] = {"runs": ncase + len(fixed), "status": status, "worst_cond_interpolation_matrix": worst_cond}
+
+    # the initial set under INTERNAL SCALING: boxes whose width is not exactly representable (xl + (xu - xl) rounds above xu), x0 on or
+    # within rhobeg of a bound: the first npt evaluations, as the objective receives them, lie inside the user's box exactly
+    # (seeded change C14_13 un-scaled without the final clip)
+    st_sc = {"runs": 0, "evaluations": 0, "on_upper_bound": 0}
+    for i in range(ctx.scale(120, 1200) * boost):
+        seed = [ctx.seed, 1412, boost, i]
+        bad, info = scaled_init_case(dfols, seed)
+        ctx.seen(("c14scaled", i))
+        if info is not None:
+            st_sc["runs"] += 1
+            st_sc["evaluations"] += info[0]
+            st_sc["on_upper_bound"] += info[1]
+        for sig, what in bad:
+            report(sig, what, {"kind": "scaled-init", "seed": seed})
+    ctx.cov["search_scaled_init"] = st_sc
 
     # the minimal documented call of the recorded finding, always exercised
     D = U.random_orthog_directions_within_bounds(2, 1.0, np.array([0.0]), np.array([3.0]))
@@ -655,6 +707,8 @@ def replay(payload):
         else:
             D = U.random_orthog_directions_within_bounds(c["num"], c["delta"], c["lower"], c["upper"], with_neg_dirns=rp["neg"])
             bad = check_dirs(D, c, "orthog-dirs", rp["neg"])
+    elif kind == "scaled-init":
+        bad, _info = scaled_init_case(dfols, rp["seed"])
     elif kind == "gen-fixed":
         lo, up = np.array([0.0]), np.array([3.0])
         D = U.random_orthog_directions_within_bounds(2, 1.0, lo, up)
